@@ -348,4 +348,54 @@ theorem K22_resetUpstream (c : Cfg) (s : S) (h : K22 c s) : K22 c (resetUpstream
     exact liveAreCounted_setStream _ _ unlisten (fun st hst => by simpa [unlisten] using hst) (h ho)
   · exact h
 
+/-! ### the pending terminate reply (`direct` between steps) -/
+
+theorem k7_intro {s' : S} (hsr : s'.setupRetry = false) (hd : s'.direct = false) : K7 s' :=
+  fun _ => ⟨hsr, fun h => by rw [hd] at h; cases h⟩
+
+theorem not_direct_of_live {s : S} (h7 : K7 s) (hcl : s.cleaned = false) (hl : 0 < liveCount s.streams) :
+    s.direct = false := by
+  cases hd : s.direct with
+  | false => rfl
+  | true => have := ((h7 hcl).2 hd).2.2.2.2.2.1; omega
+
+theorem not_direct_of_phase {s : S} (h7 : K7 s) (hcl : s.cleaned = false) (hp : s.phase ≠ .WaitNotify) :
+    s.direct = false := by
+  cases hd : s.direct with
+  | false => rfl
+  | true => exact absurd ((h7 hcl).2 hd).1 hp
+
+/-- away from `WaitNotify` no local reply is pending: K7 carries over to any state with the same two flags -/
+theorem k7_frame {s s' : S} (h7 : K7 s) (hcl : s.cleaned = false) (hnw : s.phase ≠ .WaitNotify)
+    (hsr : s'.setupRetry = s.setupRetry) (hd : s'.direct = s.direct) : K7 s' :=
+  k7_intro (by rw [hsr]; exact (h7 hcl).1) (by rw [hd]; exact not_direct_of_phase h7 hcl hnw)
+
+theorem or3_nd {a b : Prop} {d : Bool} (h : a ∨ b ∨ d = true) (hd : d = false) : a ∨ b := by
+  rcases h with h | h | h
+  · exact Or.inl h
+  · exact Or.inr h
+  · rw [hd] at h; cases h
+
+theorem not_direct_of_quiet {s : S} (h7 : K7 s) (hcl : s.cleaned = false) (hn : s.notify = false) :
+    s.direct = false := by
+  cases hd : s.direct with
+  | false => rfl
+  | true => have := ((h7 hcl).2 hd).2.1; rw [hn] at this; cases this
+
+theorem not_direct_of_timer {s : S} (h7 : K7 s) (hcl : s.cleaned = false) (ht : s.perTry = true ∨ s.global = true) :
+    s.direct = false := by
+  cases hd : s.direct with
+  | false => rfl
+  | true =>
+    have := (h7 hcl).2 hd
+    rcases ht with ht | ht
+    · rw [this.2.2.2.2.2.2.1] at ht; cases ht
+    · rw [this.2.2.2.2.2.2.2] at ht; cases ht
+
+theorem not_direct_of_not_urr {s : S} (h7 : K7 s) (hcl : s.cleaned = false) (hu : s.urr = false) :
+    s.direct = false := by
+  cases hd : s.direct with
+  | false => rfl
+  | true => have := ((h7 hcl).2 hd).2.2.1; rw [hu] at this; cases this
+
 end MosnVerif.Model.Downstream
